@@ -151,13 +151,15 @@ def _ex_sample():
 
 
 contract(
-    target='cgsmiles.sample:MoleculeSampler.sample', serves=['C17', 'C16'],
+    target='cgsmiles.sample:MoleculeSampler.sample', variant='coarse', serves=['C17', 'C16'],
     self_fields={'fragment_dict': 'Dict[Str,Graph:tmpl]', 'terminal_bonds': 'List[Str]',
                  'fragments_by_bonding': 'DefaultDict[Str,List[Tuple[Str,Int]]]', 'polymer_reactivities': 'Dict[Str,Real]',
                  'fragment_reactivities': 'Dict[Str,Dict[Str,Real]]', 'fragment_masses': 'Dict[Str,Real]', 'all_atom': 'Bool'},
     types={'target_weight': 'Real', 'start_fragment': 'Opt[Str]'}, returns='Graph:mol',
+    # Coarse-grained mode.  In all-atom mode the same loop runs and rebuild_h_atoms / set_atom_names_atomistic are called
+    # afterwards; establishing rebuild_h_atoms' precondition on the grown molecule is left to the bounded tier (C09, C16).
     requires=_WF_SAMPLER + ["implies(start_fragment is not None, start_fragment in self.fragment_dict)",
-                            "len(self.fragment_dict) > 0"],
+                            "len(self.fragment_dict) > 0", "not self.all_atom"],
     ensures=[
         # the summed mass of the fragments added during growth reaches the target and would be below it without the last one
         "added >= target_weight",
@@ -172,7 +174,7 @@ contract(
         "count == 0 or added - last < target_weight",
         "fresh_graph(molecule)",
     ])},
-    callee_clauses={'merge_graphs': [], 'find_open_bonds': ['for b in keys(result) for n in result[b]', 'len(result[b]) > 0'], 'add_fragment': ['result[0] == molecule']},
+    callee_clauses={'merge_graphs': [], 'find_open_bonds': ['for b in keys(result) for n in result[b]', 'len(result[b]) > 0', 'is_descriptor(b) for b in keys(result)'], 'add_fragment': ['result[0] == molecule']},
     opaque=['is_descriptor', 'complementary', 'ends_in_digit', 'kind_ok'], heap_invariants=['descriptors', 'fragid'],
     examples=_ex_sample,
 )
